@@ -611,3 +611,75 @@ contract(E + "ExonCorrector.correct_misalignments#call_args", {"self": "rec:Exon
          ensures=["result[0] == (alignment_info.read_exons[0][0], alignment_info.read_exons[len(alignment_info.read_exons) - 1][1])",
                   "result[1] == alignment_info.combined_profile.read_intron_profile.read_features"],
          canary="result[0][0] == alignment_info.alignment.reference_start + 1")
+
+
+# ---- short-read based correction (IlluminaExonCorrector.correct_exons): the same sentences, on the real class ------------------------------------
+def _illumina_case(seed):
+    import random
+    rng = random.Random(seed)
+    iec = native.repo_import("src/illumina_exon_corrector.py")
+    n = rng.randint(2, 4)
+    p = rng.randint(500, 2000)
+    exons = []
+    for k in range(n):
+        ln = rng.choice([4, 12, 16, 25, 40, 120, 300])
+        exons.append((p, p + ln - 1))
+        p += ln + rng.choice([200, 400, 1000])
+    introns = [(exons[i][1] + 1, exons[i + 1][0] - 1) for i in range(n - 1)]
+    short = set()
+    for a, b in introns:
+        r = rng.random()
+        if r < .25:
+            short.add((a, b))
+        elif r < .5:
+            short.add(rng.choice([(a, b + 4), (a - 4, b), (a + rng.randint(-6, 6), b + rng.randint(-6, 6))]))
+        elif r < .85:
+            # a skipped short exon: two short-read introns inside (or around) the read intron, outer sites within +-30 of the read's
+            m = a + (b - a) // 2
+            gap = rng.choice([10, 20, 30, 45, 60])
+            short.add((a + rng.choice([0, 0, -5, 4, -20, 25, -30]), m - 1))
+            short.add((m + gap, b + rng.choice([0, 0, 5, -4, 20, -25, 30])))
+    for _ in range(rng.randint(0, 2)):
+        x = rng.randint(400, 4000)
+        short.add((x, x + rng.randint(50, 600)))
+    short = {s for s in short if s[0] < s[1]}
+    got = iec.IlluminaExonCorrector.from_data(short).correct_exons(list(exons))
+    problems = []
+    if not got or any(a > b or a < 1 for a, b in got):
+        problems.append("block with end before start: %s" % (got,))
+    elif any(got[i][1] >= got[i + 1][0] for i in range(len(got) - 1)):
+        problems.append("blocks overlap / not ascending: %s" % (got,))
+    else:
+        if (got[0][0], got[-1][1]) != (exons[0][0], exons[-1][1]):
+            problems.append("start / end moved from %s to %s (this corrector has no terminal-exon correction)" % ((exons[0][0], exons[-1][1]), (got[0][0], got[-1][1])))
+        own = {x for a, b in introns for x in (a, b)}
+        sr = {x for a, b in short for x in (a, b)}
+        for i in range(len(got) - 1):
+            for site in (got[i][1] + 1, got[i + 1][0] - 1):
+                if site not in own and site not in sr:
+                    problems.append("splice site %d is neither the read's nor a short-read junction site" % site)
+    return problems, {"exons": exons, "short_introns": sorted(short), "corrected": got}
+
+
+def replay_illumina(d):
+    p, desc = _illumina_case(d["inputs"]["seed"])
+    return (not p), "seed %s %s: %s" % (d["inputs"]["seed"], desc, p[:3] or "valid, ends kept, sites accounted for")
+
+
+@bounded("C14.illumina_corrector", ["C14"], shards=4, note="the real IlluminaExonCorrector.correct_exons on reads of 2-4 exons (incl. exons of 4-25 bp) and "
+         "short-read introns equal to / 4 bp off / near the read's introns, pairs that flank a skipped short exon (outer sites up to 30 bp "
+         "from the read's, also beyond the read's own ends) and unrelated ones: blocks ascending and non-overlapping, start and end kept, "
+         "every splice site the read's own or a short-read junction site")
+def c14_illumina(tier, rng):
+    n = 3000 if tier == "quick" else 100000
+    base = rng.randrange(10 ** 9)
+    for k in range(n):
+        try:
+            p, desc = _illumina_case(base + k)
+        except Exception as e:
+            p, desc = ["exception %s: %s" % (type(e).__name__, e)], {}
+        if p:
+            return {"cases": k + 1, "bound": "%d reads" % n, "violations": [{
+                "obligation": "C14.illumina_corrector", "inputs": {"seed": base + k}, "observed": p[:3] + [str(desc)], "required": "the sentences of C14",
+                "replay_call": "contracts.c_correction:replay_illumina"}]}
+    return {"cases": n, "bound": "%d random reads with short-read introns" % n, "violations": [], "samples": [{"seed": base}]}
